@@ -56,7 +56,11 @@ func (g *c13Reg) String() string {
 	case c13Row:
 		s += fmt.Sprintf("[row %d]", g.row+1)
 	case c13Cell:
-		s += fmt.Sprintf("[row %d cell %d]", g.row+1, g.cell+1)
+		if g.row < 0 {
+			s += fmt.Sprintf("[header cell %d]", g.cell+1)
+		} else {
+			s += fmt.Sprintf("[row %d cell %d]", g.row+1, g.cell+1)
+		}
 	}
 	s += " " + cbTimeNames[g.when] + " " + cbTargetNames[g.target]
 	if g.early {
@@ -253,6 +257,14 @@ func (s *c13State) flush() {
 			}
 			owner = s.rows[g.row]
 		case c13Cell:
+			if g.row < 0 {
+				// a header cell, addressed through the live slice Headers() returns
+				if !s.hdrSet || len(s.t.Headers()) <= g.cell {
+					continue
+				}
+				owner = &s.t.Headers()[g.cell]
+				break
+			}
 			if g.row >= len(s.rows) || s.rows[g.row] == nil || s.ncell[g.row] <= g.cell {
 				continue
 			}
@@ -308,6 +320,9 @@ func (s *c13State) allowed(g *c13Reg, tgt string) bool {
 		}
 		return tgt == fmt.Sprintf("R%d", s.rho(g.row))
 	case c13Cell:
+		if g.row < 0 {
+			return tgt == fmt.Sprintf("X0.%d", g.cell+1)
+		}
 		return tgt == fmt.Sprintf("X%d.%d", s.rho(g.row), g.cell+1)
 	}
 	return false
@@ -388,7 +403,11 @@ func (s *c13State) mandatory(g *c13Reg, kind string, row, cell int) []string {
 				}
 			}
 		case c13Cell:
-			if s.att[g.row] && g.when == 2 {
+			if g.row < 0 {
+				if g.when == 2 && s.hdrSet {
+					out = append(out, fmt.Sprintf("X0.%d", g.cell+1))
+				}
+			} else if s.att[g.row] && g.when == 2 {
 				out = append(out, fmt.Sprintf("X%d.%d", s.rho(g.row), g.cell+1))
 			}
 		}
@@ -735,7 +754,10 @@ func c13Combo(id, k int, sh c13Shape, early bool, pick int) *c13Reg {
 			g.row = anyRows[pick%len(anyRows)]
 		}
 	case c13Cell:
-		if len(cellRows) > 0 {
+		if sh.header > 0 && (len(cellRows) == 0 || pick%3 == 2) {
+			g.row = -1
+			g.cell = (pick / 7) % sh.header
+		} else if len(cellRows) > 0 {
 			g.row = cellRows[pick%len(cellRows)]
 			g.cell = (pick / 7) % sh.rows[g.row].n
 		}
@@ -870,7 +892,7 @@ func init() {
 	register(&Prop{
 		ID:    "C13",
 		Level: "exploration",
-		Rule: "phase 0 (exhaustive): each of the 48 (owner kind x time x target) registrations singly x 12 representative table shapes (header none/0/1/2/3 cells set before or after the rows; rows of 0-3 cells built by AddRowItems, NewRow+Add+AddRow or AppendNewRow+Add; separators) x {registered as soon as the owner exists, registered after the build} x 3 owner instances, followed by an InvokeRenderCallbacks pass and one renderer pass; " +
+		Rule: "phase 0 (exhaustive): each of the 48 (owner kind x time x target) registrations singly x 12 representative table shapes (header none/0/1/2/3 cells set before or after the rows; rows of 0-3 cells built by AddRowItems, NewRow+Add+AddRow or AppendNewRow+Add; separators) x {registered as soon as the owner exists, registered after the build} x 3 owner instances (cell owners include header cells addressed through Headers()), followed by an InvokeRenderCallbacks pass and one renderer pass; " +
 			"phase 1 (exhaustive): out-of-range times/targets and a foreign owner type on every owner; phase 2: random sets of 1-12 registrations on random shapes with 1-3 passes through random triggers; phase 3 (thorough, exhaustive): all 48x48 pairs on 3 shapes. " +
 			"Every add operation and every render pass is one window: mandatory events exactly once, every event at most once per (registration,target), allowed targets only, add/render time matching the window, documented nesting order, and read-back through the table of a property set inside the callback. " +
 			"phase 4: a cell value that already carries 0-4 registrations is added at 1-3 places (separate rows or twice in one row), live cells get further registrations, live cells are copied by value and added again, the caller's variable gets registrations after the fact; a registration must fire exactly once per pass on the live cell it was made on and on every by-value copy of a carrier (a cell value registered before it was added carries its callbacks), and never on any other cell. " +
